@@ -203,8 +203,10 @@ def renderCols (K : Consts) (hp : Heap) (byId : List (Option Int × String)) (a 
   | [] => .ok []
   | n :: ns =>
     -- `fs[name]` is `get`, i.e. `getattr(fs, name, None)`: an instance created before the feature existed has no
-    -- such slot and answers `None`
-    match renderVal K hp byId (hp.length + 1) ((slot hp a n).getD .none) with
+    -- such slot and answers `None`.  The budget stands for Python's recursion limit: one level of array nesting
+    -- takes two units (`.ref arr` → `.refs l` → `.ref e`), a heap of `n` objects nests at most `n` arrays without a
+    -- cycle, so `2 * n + 2` covers every acyclic nesting (a cyclic one: RecursionError)
+    match renderVal K hp byId (2 * hp.length + 2) ((slot hp a n).getD .none) with
     | .error e => .error e
     | .ok c =>
       match renderCols K hp byId a ns with
@@ -223,7 +225,7 @@ def renderRow (K : Consts) (cass : List Cas) (hp : Heap) (byId : List (Option In
     match slot hp a "elements" with
     | none => throw .attributeError
     | some v =>
-      let c ← renderVal K hp byId (hp.length + 1) v
+      let c ← renderVal K hp byId (2 * hp.length + 2) v
       pure ([anchor] ++ cov ++ [c])
   else
     let cs ← renderCols K hp byId a (columns t)
